@@ -263,6 +263,8 @@ pub trait Api: Send + Sync {
     fn find(&self, toks: &[IdTok], t: f64) -> Vec<Occ>;
     fn find_iter_steps(&self, toks: &[IdTok], t: f64, extra_calls: usize) -> (usize, Vec<IterStep>);
     fn replace_stream(&self, toks: Vec<IdTok>, t: f64) -> Vec<IdTok>;
+    /// lazy search: take at most `k` occurrences, then drop the iterator
+    fn find_iter_first(&self, toks: &[IdTok], t: f64, k: usize) -> Vec<Occ>;
     fn apply(&self, w: &str, b: &mut DigitString) -> Result<(), ErrK>;
     fn apply_decimal(&self, w: &str, b: &mut DigitString) -> Result<(), ErrK>;
     fn is_linking(&self, w: &str) -> bool;
@@ -359,6 +361,9 @@ impl<L: LangInterpreter> Api for Wrap<L> {
     }
     fn replace_stream(&self, toks: Vec<IdTok>, t: f64) -> Vec<IdTok> {
         replace_numbers_in_stream(toks, &self.lang, t)
+    }
+    fn find_iter_first(&self, toks: &[IdTok], t: f64, k: usize) -> Vec<Occ> {
+        find_numbers_iter(toks.iter(), &self.lang, t).take(k).map(Occ::from).collect()
     }
     fn apply(&self, w: &str, b: &mut DigitString) -> Result<(), ErrK> {
         self.lang.apply(w, b).map_err(|e| errk(&e))
